@@ -224,6 +224,26 @@ def run(chk):
         if gt.well_conditioned(mb, Xkept) and not (np.allclose(La, Lb, rtol=1e-9, atol=1e-9) and np.allclose(ma.means, mb.means, rtol=1e-8, atol=1e-10)):
             chk.fail("training on a Dask array with unknown row-chunk sizes differs from training on the same rows in memory (reported %s vs %s)" % (La, Lb),
                      {"X": hexlist(X), "kept_rows": keep.tolist(), "shape": [C, D], "w": hexlist(w), "mu": hexlist(mu), "var": hexlist(var)})
+    # ---- a machine constructed for MAP adaptation and switched to maximum likelihood afterwards (set_params / attribute): it trains like an ML machine
+    for j in range(3 if chk.tier == "quick" else 30):
+        w, mu, var, s, X = gt.gen_training(r, C=2, N=12, scale="unit")
+        from ..impl import GMMMachine as _G2, make_gmm as _mk2
+        prior_ = _mk2(w, mu + 0.7 * s, var)
+        msw = _G2(n_gaussians=2, trainer="map", ubm=prior_, max_fitting_steps=2, convergence_threshold=None, update_means=True, update_variances=True, update_weights=True,
+                  mean_var_update_threshold=eps)
+        if j % 2:
+            msw.set_params(trainer="ml")
+        else:
+            msw.trainer = "ml"
+        mref, _ = gt.build_machine(dict(w=np.array(msw.weights), mu=np.array(msw.means), var=np.array(msw.variances), thr=None, sw=(True, True, True), eps=eps, cap=2, cthr=None))
+        mref.variance_thresholds = np.array(msw.variance_thresholds)
+        mref.variances = np.array(msw.variances)
+        gt.run_fit(msw, X)
+        gt.run_fit(mref, X)
+        chk.count(1, key=("trainer switched to ml after construction", j % 2))
+        if gt.well_conditioned(mref, X) and not (np.allclose(msw.means, mref.means, rtol=1e-9, atol=1e-12) and np.allclose(msw.weights, mref.weights, rtol=1e-9, atol=1e-12)):
+            chk.fail("a machine constructed with trainer='map' and switched to 'ml' (%s) before fit does not train like an ML machine started from the same parameters"
+                     % ("set_params" if j % 2 else "attribute assignment"), {"X": hexlist(X), "w": hexlist(w), "mu": hexlist(mu), "var": hexlist(var)})
     # ---- the iteration cap given as a NumPy integer (what a machine restored from a file carries): honoured like the built-in int
     import os as _os, tempfile as _tf
     from ..impl import GMMMachine as _GMM
